@@ -9,8 +9,8 @@ CONSTANTS AllPairs
 VARIABLE pend
 mvars == <<vars, pend>>
 
-Pairs == IF AllPairs THEN DirTrees \X DirTrees
-         ELSE UNION {{<<a, b>> : b \in Edits(a) \cup {a}} : a \in DirTrees}
+Pairs == IF AllPairs THEN Sources \X DirTrees
+         ELSE UNION {{<<a, b>> : b \in Edits(a) \cup {a}} : a \in Sources}
 
 Desc(q) == IF "Dev_C14_DataIgnored" \in Devs THEN DescAsBuilt(src', tgt', q) ELSE DescIdeal(src', tgt', q)
 MInit == Init /\ pend = {}
@@ -20,7 +20,8 @@ MNext == MStart \/ MChange
 MSpec == MInit /\ [][MNext]_mvars
 
 Done == phase = "diff" /\ pend = {}
-IdealOK   == Done => Reproduces /\ EmptyOnEqual
+\* ... and a change at the empty path is part of the reference set exactly when the roots' own data differ
+IdealOK   == Done => Reproduces /\ EmptyOnEqual /\ (rootch <=> src[<<>>] # tgt[<<>>])
 AsBuiltOK == Done => ~bad /\ cur = AsBuiltResult(src, tgt)
 \* the as-built rule breaks the property exactly on the kind changes (and the model shows it)
 AsBuiltBreaks == Done => (cur = tgt)
